@@ -79,6 +79,9 @@ func genReplica(t *rapid.T, blocks []ck.BlockSpec, allowDisk bool) Replica {
 
 func genCase(t *rapid.T) Case {
 	c := Case{Chain: ck.GenChainCfg(t, true)}
+	if rapid.IntRange(0, 3).Draw(t, "genesis_roles") == 0 { // roles designated in the genesis block (NeoGo extension)
+		c.Chain.GenesisRoles = rapid.IntRange(1, 15).Draw(t, "roles_mask")
+	}
 	bias := ck.BalancedBias(c.Chain.P2PSig)
 	bias.Governance = 6
 	n := rapid.IntRange(3, 28).Draw(t, "nblocks")
@@ -343,6 +346,18 @@ func checkCase(c Case, o *vt.Obs) error {
 	for ri, rep := range c.Replicas {
 		backends[rep.Opts.Backend] = true
 		n, err := ck.NewNode(c.Chain, rep.Opts, nil)
+		if err == nil {
+			// the genesis block is executed by every node on its own
+			g0, g1 := b.N.BC.GetHeaderHash(0), n.BC.GetHeaderHash(0)
+			if g0 != g1 {
+				n.Close()
+				return fmt.Errorf("replica %d: genesis block %s, the reference node has %s", ri, g1.StringLE(), g0.StringLE())
+			}
+			if d := ck.Diff(ck.AERs(b.N.BC, g0, nil, false), ck.AERs(n.BC, g1, nil, false)); d != "" {
+				n.Close()
+				return fmt.Errorf("replica %d (%+v): execution results of the genesis block differ from the reference node's: %s", ri, rep.Opts, d)
+			}
+		}
 		if err != nil {
 			return fmt.Errorf("replica %d: cannot start: %v", ri, err)
 		}
@@ -433,6 +448,9 @@ func checkCase(c Case, o *vt.Obs) error {
 		}
 	}
 	o.Labelf("profile-%s", c.Chain.Profile)
+	if c.Chain.GenesisRoles != 0 {
+		o.Label("genesis-roles")
+	}
 	if govEpochCrossed {
 		o.Label("gov-epoch-crossed")
 	}
